@@ -191,3 +191,57 @@ def build(eng, tier):
         ghost=[("store:root_", "after", "root_.g_pos = 0\nroot_.g_lim = 1")],
         ensures=["LL(self)", "others_untouched(self)"],
         raises={"TypeError": ["LL(self)", "others_untouched(self)"]}))
+
+    encapsulation_obligations(eng)
+
+
+def encapsulation_obligations(eng):
+    """The list-level contracts carry the statement for Graph / Function only if (E1) a graph keeps ONE node container for
+    its whole life - an iterator holds a reference to that container, so replacing it (even by an equal one) detaches
+    every live iterator - and (E2) nobody outside _linked_list.py writes the list's private fields.  Both are frame
+    obligations decided syntactically over every module of the package on every run."""
+    import ast
+    import os
+    from pyvc import extract
+    root = os.path.join(extract.SRC, "onnx_ir")
+    private = {"owning_list", "_root", "_value_ids_to_boxes"}     # names specific to the list (prev/next/_length are too generic to key on)
+    e1, e2, files = [], [], 0
+    for dirpath, _dirs, fnames in os.walk(root):
+        for fn in fnames:
+            if not fn.endswith(".py") or fn.endswith("_test.py"):
+                continue
+            path = os.path.join(dirpath, fn)
+            rel = os.path.relpath(path, extract.SRC)
+            tree = ast.parse(open(path).read())
+            files += 1
+            for cls in [n for n in ast.walk(tree) if isinstance(n, ast.ClassDef)] + [tree]:
+                for fnode in (cls.body if isinstance(cls, ast.ClassDef) else [n for n in tree.body if isinstance(n, (ast.FunctionDef, ast.AsyncFunctionDef))]):
+                    if not isinstance(fnode, (ast.FunctionDef, ast.AsyncFunctionDef)):
+                        continue
+                    owner = cls.name if isinstance(cls, ast.ClassDef) else "<module>"
+                    for n in ast.walk(fnode):
+                        targets = []
+                        if isinstance(n, ast.Assign):
+                            targets = n.targets
+                        elif isinstance(n, (ast.AugAssign, ast.AnnAssign)):
+                            targets = [n.target]
+                        elif isinstance(n, ast.Delete):
+                            targets = n.targets
+                        elif isinstance(n, ast.Call) and isinstance(n.func, ast.Name) and n.func.id in ("setattr", "delattr") and len(n.args) >= 2 \
+                                and isinstance(n.args[1], ast.Constant):
+                            targets = [ast.Attribute(value=n.args[0], attr=n.args[1].value, ctx=ast.Store())]
+                        for t in targets:
+                            for a in ast.walk(t):
+                                if not isinstance(a, ast.Attribute):
+                                    continue
+                                where = f"{rel}:{n.lineno} in {owner}.{fnode.name}"
+                                if a.attr == "_nodes" and not (fnode.name == "__init__" and isinstance(a.value, ast.Name) and a.value.id == "self"):
+                                    e1.append(where)
+                                if a.attr in private and not rel.endswith("_linked_list.py"):
+                                    e2.append(f"{where}: .{a.attr}")
+    eng.add_static("frame/Graph._nodes-is-assigned-only-by-the-constructor", not e1,
+                   "stores to `._nodes` outside a constructor's `self._nodes = ...`: " + "; ".join(e1) if e1 else f"{files} modules scanned",
+                   backend="frame-analysis (syntactic, whole package)")
+    eng.add_static("frame/linked-list-private-fields-written-only-in-_linked_list.py", not e2,
+                   "stores to private list fields outside _linked_list.py: " + "; ".join(e2) if e2 else f"{files} modules scanned",
+                   backend="frame-analysis (syntactic, whole package)")
